@@ -7,6 +7,7 @@
 -/
 import LccModel.Proto
 import LccModel.Model.RunSeq
+import LccModel.Model.RunContent
 open Lean LccModel LccModel.Proto LccModel.ReportDir LccModel.RunSeq
 
 def parseTarget (j : Json) : Except String (Option Target) :=
@@ -35,15 +36,29 @@ def parseFate (s : String) : Except String Fate :=
   | "completes" => pure .completes
   | _ => throw s!"unknown fate {s}"
 
-def parseOp (j : Json) : Except String RunSeq.Op := do
+def parseKind (s : String) : Except String RunSeq.FileKind :=
+  match s with
+  | "json" => pure .json | "xml" => pure .xml | "junit" => pure .junit | "html" => pure .html
+  | "custom" => pure .custom | "attachments" => pure .attachments
+  | _ => throw s!"unknown file kind {s}"
+
+def kindName : RunSeq.FileKind → String
+  | .json => "json" | .xml => "xml" | .junit => "junit" | .html => "html" | .custom => "custom" | .attachments => "attachments"
+
+/-- a run op carries what its backends / tests leave in the directory: "files": [kind…] (absent: report.js iff "writes") -/
+def parseOp (j : Json) : Except String RunSeq.OpC := do
   let k ← getStr j "op"
   match k with
   | "run" =>
+    let writes ← getBool j "writes"
+    let files ← match j.getObjVal? "files" with
+      | .ok (.arr a) => a.toList.mapM (fun x => do parseKind (← x.getStr?))
+      | _ => pure (if writes then [RunSeq.FileKind.json] else [])
     pure (.run { cli := ← parseTarget (fieldOr j "cli"), env := ← parseTarget (fieldOr j "env"),
-                 impl := ← parseImpl (fieldOr j "impl"), writes := ← getBool j "writes", fate := ← parseFate (← getStr j "fate") })
-  | "delete" => pure (.delete (← getNat j "n"))
-  | "delcur" => pure .deleteCurrent
-  | "delother" => pure (.deleteOther (← getNat j "k"))
+                 impl := ← parseImpl (fieldOr j "impl"), writes := writes, fate := ← parseFate (← getStr j "fate") } files)
+  | "delete" => pure (.other (.delete (← getNat j "n")))
+  | "delcur" => pure (.other .deleteCurrent)
+  | "delother" => pure (.other (.deleteOther (← getNat j "k")))
   | _ => throw s!"unknown op {k}"
 
 /-- paths `other k` the stream uses -/
@@ -71,15 +86,29 @@ def normalize (s : RunSeq.St) : RunSeq.St :=
            filled := fun m => (ftbl[m]?).getD false, ofilled := fun m => (otbl[m]?).getD false,
            other := fun k => (oth[k]?).join }
 
+def normalizeC (s : RunSeq.StC) : RunSeq.StC :=
+  let b := normalize s.base
+  let ctbl := ((List.range s.base.fs.next).map s.content).toArray
+  { base := b, content := fun m => (ctbl[m]?).getD [] }
+
+/-- the observable state plus, for every existing default-location directory, the kinds of files it holds -/
+def obsC (s : RunSeq.StC) : Json :=
+  let ids := (match s.base.fs.current with
+    | some m => [m]
+    | none => []) ++ (listing s.base.fs).map (·.2)
+  (obs s.base).setObjVal! "content"
+    (Json.arr (((List.range s.base.fs.next).filter (fun m => ids.contains m)).map (fun (m : Nat) =>
+      Json.arr #[Json.num m, Json.arr ((s.content m).map (fun k => Json.str (kindName k))).toArray])).toArray)
+
 def handle (j : Json) : Except String Json := do
   let ops ← (← getArr j "ops").toList.mapM parseOp
-  let rec go (s : RunSeq.St) (ops : List RunSeq.Op) (acc : Array Json) : Array Json :=
+  let rec go (s : RunSeq.StC) (ops : List RunSeq.OpC) (acc : Array Json) : Array Json :=
     match ops with
     | [] => acc
     | op :: rest =>
-      match RunSeq.step s op with
+      match RunSeq.stepC s op with
       | none => acc.push (Json.str "stuck")
-      | some s' => let s' := normalize s'; go s' rest (acc.push (obs s'))
-  pure (Json.mkObj [("states", Json.arr (go RunSeq.init ops #[]))])
+      | some s' => let s' := normalizeC s'; go s' rest (acc.push (obsC s'))
+  pure (Json.mkObj [("states", Json.arr (go RunSeq.StC.init ops #[]))])
 
 def main : IO Unit := loop (wrap handle)
